@@ -5,6 +5,7 @@ package main
 import (
 	"fmt"
 	"go/ast"
+	"go/token"
 	"go/types"
 	"strings"
 )
@@ -97,7 +98,7 @@ func siteHasUsage(a *txnAnalyzer, s *txnSite) bool {
 
 func checkC10(p *Prog, r *Result, tier string) {
 	r.Technique = "compensation-completeness analysis of every utils.Txn/PCR call site (effect table + CFG reachability with branch pruning on failureByCond) and must-hold lock sets over the synchronous call graph"
-	r.Explanation = "Decides two structural necessary conditions of 'node usage == sum of recorded workloads': (E1) at every Txn/PCR site whose closures change node usage or workload records, no failing path the combinator reports leaves such a change without its inverse (a self-inverse rewrite must write a value snapshot, not an alias of the mutated object) (T1 cond not atomic, T2 then can fail, T3 effect inside then, T4 PCR prepare is pure, T5 plugin fan-out recorded and reverted); (L4) every usage mutator called from cluster/calcium runs with the pod lock held on every synchronous path (the plugin's read-modify-write has no transaction of its own). TC: the closures run under the context the combinator hands them."
+	r.Explanation = "Decides two structural necessary conditions of 'node usage == sum of recorded workloads': (E1) at every Txn/PCR site whose closures change node usage or workload records, no failing path the combinator reports leaves such a change without its inverse (a self-inverse rewrite must write a value snapshot, not an alias of the mutated object) (T1 cond not atomic, T2 then can fail, T3 effect inside then, T4 PCR prepare is pure, T5 plugin fan-out recorded and reverted, T5c the fan-out helper returns the partial answer map together with the error); (ADM) a re-allocation is admitted by testing the full new request (delta + origin) against the pool from which the origin was subtracted, in both the CPU-bound and the memory branch; (L4) every usage mutator called from cluster/calcium runs with the pod lock held on every synchronous path (the plugin's read-modify-write has no transaction of its own). TC: the closures run under the context the combinator hands them."
 	r.NotCovered = "numeric equality of usage and the workload sum; faults inside compensations; worker-pool saturation; that allocation never exceeds capacity (numeric)"
 	r.Assumptions = []string{"A2", "A3", "effect table (printed under tables) lists the lasting effects and their inverses"}
 	a := newTxnAnalyzer(p, r)
@@ -121,11 +122,13 @@ func checkC10(p *Prog, r *Result, tier string) {
 		r.undecided("count", "sites with usage mutators", "", fmt.Sprintf("found %d Txn/PCR sites with usage mutators, expected at least 9", n))
 	}
 	checkL4Usage(p, r, a.g)
+	checkCallHelper(p, r)
+	checkReallocAdmission(p, r)
 }
 
 func checkC11(p *Prog, r *Result, tier string) {
 	r.Technique = "compensation-completeness analysis of every utils.Txn/PCR call site (effect table, CFG reachability with branch pruning on failureByCond, closure context discipline)"
-	r.Explanation = "For all 17 Txn/PCR sites and all lasting effects of the effect table: T1 an effect in cond followed by a fallible step is undone when cond fails; T2 when then can fail every cond effect has its inverse reachable in the rollback on the failureByCond=false path; T3 an effect inside then followed by a fallible step has its inverse in the rollback; T4 PCR prepare has no effect; T5 PCR commit fan-outs record the plugins that answered and the rollback reverts exactly those; SN SetNode's capacity rollback restores the value returned by the forward call with delta=false; TC closures use the context handed to them. A missing inverse means some single-fault position leaves a lasting effect after a reported failure."
+	r.Explanation = "For all 17 Txn/PCR sites and all lasting effects of the effect table: T1 an effect in cond followed by a fallible step is undone when cond fails; T2 when then can fail every cond effect has its inverse reachable in the rollback on the failureByCond=false path; T3 an effect inside then followed by a fallible step has its inverse in the rollback; T4 PCR prepare has no effect; T5 PCR commit fan-outs record the plugins that answered and the rollback reverts exactly those; T5c the fan-out helper hands back the partial answer map together with the error; SN SetNode's capacity rollback restores the value returned by the forward call with delta=false; TC closures use the context handed to them. A missing inverse means some single-fault position leaves a lasting effect after a reported failure."
 	r.NotCovered = "whether an inverse restores the exact prior value (except SN); faults inside compensating steps; effects outside the effect table"
 	r.Assumptions = []string{"A2", "A3", "effect table (printed under tables)"}
 	a := newTxnAnalyzer(p, r)
@@ -143,6 +146,7 @@ func checkC11(p *Prog, r *Result, tier string) {
 		a.checkClosureCtx(r, s)
 	}
 	checkSetNodeRollback(p, r, sites)
+	checkCallHelper(p, r)
 }
 
 // SN: in SetNode the rollback passes the `before` value returned by the forward SetNodeResourceCapacity with delta=false.
@@ -211,3 +215,93 @@ func describeSites(sites []*txnSite) []string {
 }
 
 var _ = strings.Join
+
+// ADM: CalculateRealloc gives the origin back to the pool and must then admit the FULL new request, not the delta.
+func checkReallocAdmission(p *Prog, r *Result) {
+	r.min("ADM", 2)
+	F := p.Fn("resource/plugins/cpumem.Plugin.CalculateRealloc")
+	if F == nil {
+		r.undecided("ADM", "resource/plugins/cpumem.Plugin.CalculateRealloc", "", "not found")
+		return
+	}
+	// newReq: a WorkloadResourceRequest literal whose CPURequest and MemRequest are `req.X + origin.Y`
+	var newReq, info types.Object
+	F.inspectBody(func(n ast.Node) bool {
+		as, ok := n.(*ast.AssignStmt)
+		if !ok || len(as.Lhs) != 1 || len(as.Rhs) != 1 {
+			return true
+		}
+		e := unparen(as.Rhs[0])
+		if u, ok := e.(*ast.UnaryExpr); ok {
+			e = unparen(u.X)
+		}
+		lit, ok := e.(*ast.CompositeLit)
+		if !ok || !strings.HasSuffix(F.typeOf(lit).String(), "WorkloadResourceRequest") {
+			return true
+		}
+		sums := 0
+		for _, el := range lit.Elts {
+			kv, ok := el.(*ast.KeyValueExpr)
+			if !ok {
+				continue
+			}
+			name := exprStr(kv.Key)
+			if name != "CPURequest" && name != "MemRequest" {
+				continue
+			}
+			be, ok := unparen(kv.Value).(*ast.BinaryExpr)
+			if !ok || be.Op != token.ADD {
+				continue
+			}
+			l, ok1 := unparen(be.X).(*ast.SelectorExpr)
+			rr, ok2 := unparen(be.Y).(*ast.SelectorExpr)
+			if ok1 && ok2 && F.objOf(l.X) != nil && F.objOf(rr.X) != nil && F.objOf(l.X) != F.objOf(rr.X) {
+				sums++
+			}
+		}
+		if sums == 2 {
+			newReq = F.objOf(as.Lhs[0])
+		}
+		return true
+	})
+	// info: the node resource info whose Usage has the origin subtracted
+	F.inspectBody(func(n ast.Node) bool {
+		c, ok := n.(*ast.CallExpr)
+		if !ok {
+			return true
+		}
+		if f := F.Callee(c); f != nil && strings.HasSuffix(objName(f), "NodeResource).Sub") {
+			if sel, ok := unparen(c.Fun).(*ast.SelectorExpr); ok {
+				if s2, ok := unparen(sel.X).(*ast.SelectorExpr); ok && s2.Sel.Name == "Usage" {
+					info = F.objOf(s2.X)
+				}
+			}
+		}
+		return true
+	})
+	if newReq == nil || info == nil {
+		r.undecided("ADM", F.Name+" / full request and pool", p.pos(F.Decl), "could not identify the request built as delta + origin, or the pool with the origin subtracted")
+		return
+	}
+	n := 0
+	for _, c := range F.calls(func(f *types.Func) bool {
+		nm := objName(f)
+		return nm == "resource/plugins/cpumem/schedule.GetCPUPlans" || nm == "resource/plugins/cpumem.Plugin.doAllocByMemory"
+	}) {
+		n++
+		name := shortName(objName(F.Callee(c)))
+		reqArg, infoArg := c.Args[len(c.Args)-1], c.Args[0]
+		why := ""
+		if F.objOf(reqArg) != newReq {
+			why = "admission is tested with `" + exprStr(reqArg) + "`, not with the full new request (delta + origin): the origin was already returned to the pool, so only the delta is checked against free+origin and usage can end above capacity"
+		} else if F.objOf(infoArg) != info {
+			why = "admission is tested against `" + exprStr(infoArg) + "`, not against the pool the origin was returned to"
+		}
+		key := fmt.Sprintf("%s / admission call #%d (%s) tests the full new request against the pool with the origin returned", F.Name, n, name)
+		if why == "" {
+			r.ok("ADM", key, p.pos(c), "request = delta + origin; pool = usage - origin")
+		} else {
+			r.bad("ADM", key, p.pos(c), why)
+		}
+	}
+}
